@@ -121,14 +121,16 @@ of the fragment int / float / str / bool / Decimal / Path / UUID / date / time /
 (canonical tokens, under the named `StdLaws`) / Enum (members with pairwise different values) / Literal[...] (the value is
 the first member equal to it) / Optional[·] / list[·] / deque[·] / set[·] / frozenset[·] (hashable, pairwise different
 elements, in the iteration order of the instance) / tuple[·, ...] / fixed tuples / NamedTuple classes / dict[str, ·] /
-defaultdict[str, ·] / OrderedDict[str, ·] / dataclass — with or without a Meta of its own — whose effective
-Meta (`effMeta ci.cmeta cfg`: any key transforms, `recursive` …) has no skip rule / tag / TIMESTAMP mode, without
+defaultdict[str, ·] / OrderedDict[str, ·] / Union of tagged dataclasses and None (pairwise different tags, `RT.OtherMember`;
+the tag key is the one of the travelling config and no key of the member, `RT.TagFacts`) / dataclass, tagged or not, — with or without a Meta of its own — whose effective
+Meta (`effMeta ci.cmeta cfg`: any key transforms, `recursive` …) has no skip rule / TIMESTAMP mode, without
 catch-all or init=False fields, and whose dump keys (first alias when `all=True`, else the effective dump transform of the
-name) lead the loader back to their fields (`RT.PlainCls cfg`, a decidable condition on the class), nested to any depth,
+name) lead the loader back to their fields (`RT.ClsOK cfg`, a decidable condition on the class), nested to any depth,
 and every value conforming to it (`RT.Conf`): whatever the dump produces, the JSON image of it (`RT.toJ` = what
 `json.loads(json.dumps(·))` returns) loads back to exactly the value. By induction over the conformance derivation; the
-dataclass case chains the generated field loop of the dumper into the key loop of the loader (`RT.fields_chain`) and the
-constructor step (`RT.buildFields_ok`). -/
+dataclass case chains the generated field loop of the dumper into the key loop of the loader (`RT.fields_chain`, which
+also steps over the tag entry a tagged class appends) and the constructor step (`RT.buildFields_ok`); the Union case
+finds the tag entry behind the field entries and dispatches on it (`RT.rt_unionTagged`). -/
 theorem C01_roundtrip_struct (std : Std) (laws : StdLaws std) (cfg : Option MetaCfg) (t : Ty) (v : PyVal)
     (hc : RT.Conf std cfg t v) (d : DVal) (h : dumpV std false cfg v = .ok d) : loadD std cfg t (RT.toJ d) = .ok v :=
   RT.roundtrip std cfg laws t v hc d h
@@ -149,7 +151,7 @@ theorem C01_roundtrip_example (std : Std) :
     RT.exCfg = rootConfig RT.exRoot.cmeta ∧
     RT.Conf std RT.exCfg (.cls RT.exInner RT.exInnerTys)
       (.inst RT.exInner ((RT.exInnerTys.map (·.1)).zip [.int 3, .seq .list [.str "a".toList, .str [] ]])) := by
-  refine ⟨RT.exRoot_plain, RT.exInner_plain, rfl, RT.Conf.inst _ _ _ RT.exInner_plain rfl ?_⟩
+  refine ⟨RT.exRoot_plain, RT.exInner_plain, rfl, RT.Conf.inst _ _ _ none RT.exInner_plain rfl ?_⟩
   intro p hp
   simp only [RT.exInnerTys, List.zip_cons_cons, List.zip_nil_right, List.mem_cons, List.not_mem_nil, or_false] at hp
   rcases hp with rfl | rfl
@@ -182,5 +184,47 @@ theorem C01_roundtrip_example_containers (std : Std) :
     simp only [List.mem_cons, List.not_mem_nil, or_false] at hp
     subst hp
     exact RT.Conf.bool true
+
+/-! a Union of tagged dataclasses: `Cat(name: str)` with `Meta.tag = 'cat'`, `Dog(name: str)` with `Meta.tag = 'dog'` -/
+def exCat : ClassInfo := { name := "Cat".toList, cmeta := some { tag := some "cat".toList }, fields := [{ name := "name".toList }] }
+def exDog : ClassInfo := { name := "Dog".toList, cmeta := some { tag := some "dog".toList }, fields := [{ name := "name".toList }] }
+def exPetTys : List (S × Ty) := [("name".toList, .str)]
+
+theorem exCat_ok : RT.ClsOK none exCat exPetTys (some "cat".toList) := by
+  refine ⟨⟨rfl, rfl, rfl, rfl⟩, rfl, rfl, by decide, ?_, ?_, ?_⟩
+  · intro f hf
+    simp only [exCat, List.mem_cons, List.not_mem_nil, or_false] at hf
+    subst hf; exact ⟨rfl, rfl, rfl, rfl⟩
+  · intro f hf
+    simp only [exCat, List.mem_cons, List.not_mem_nil, or_false] at hf
+    subst hf; exact ⟨"name".toList, by rfl, by rfl⟩
+  · intro t ht
+    cases ht
+    refine ⟨by rfl, by rfl, by decide, by rfl, ?_⟩
+    intro f hf
+    simp only [exCat, List.mem_cons, List.not_mem_nil, or_false] at hf
+    subst hf
+    intro h
+    have hk : dumpKey (effMeta exCat.cmeta none) { name := "name".toList } = .ok "name".toList := by rfl
+    rw [hk] at h
+    exact absurd (Except.ok.inj h) (by decide)
+
+/-- the Union / tagged-class hypotheses are satisfiable: `Cat('tom')` conforms to `Union[Cat, Dog, None]` (so the theorem
+gives `load(dump(Cat('tom'))) == Cat('tom')` at that annotation), and so does `None`. -/
+theorem C01_roundtrip_example_tagged_union (std : Std) :
+    RT.Conf std none (.union ([] ++ .cls exCat exPetTys :: [.cls exDog exPetTys, .none]))
+      (.inst exCat ((exPetTys.map (·.1)).zip [.str "tom".toList])) ∧
+    RT.Conf std none (.union [.cls exCat exPetTys, .cls exDog exPetTys, .none]) .none := by
+  refine ⟨RT.Conf.unionTagged [] _ exCat exPetTys [.str "tom".toList] "cat".toList exCat_ok rfl ?_ ?_ ?_,
+    RT.Conf.unionNone _ (by rfl)⟩
+  · intro p hp
+    simp only [exPetTys, List.zip_cons_cons, List.zip_nil_right, List.mem_cons, List.not_mem_nil, or_false] at hp
+    subst hp; exact RT.Conf.str _
+  · intro t ht; simp at ht
+  · intro t ht
+    simp only [List.mem_cons, List.not_mem_nil, or_false] at ht
+    rcases ht with rfl | rfl
+    · exact ⟨Or.inl rfl, by decide⟩
+    · exact ⟨Or.inr rfl, by decide⟩
 
 end DW.Props.C01
